@@ -317,14 +317,18 @@ func OpenRelation(dbName string, forceWALSync bool) (*RelationService, error) {
 		return nil, err
 	}
 	if err := fs.open(); err != nil {
+		fs.file.Close()
 		return nil, err
 	}
-	// only now: the flusher writes the header fields that open has just read
-	fs.startFlusher()
 	wal, err := newWal(dbName, forceWALSync)
 	if err != nil {
+		fs.file.Close()
 		return nil, err
 	}
+	// only now: the flusher writes the header fields that open has just read,
+	// and no error can make us drop the store anymore - a store that is
+	// dropped with its flusher running keeps writing its header to the file
+	fs.startFlusher()
 	return &RelationService{
 		fs:  fs,
 		wal: wal,
